@@ -63,6 +63,10 @@ type caseSpec struct {
 	Key     string `json:"key"`
 	OutMode string `json:"out"`    // same | new
 	Rounds  int    `json:"rounds"` // prior relic signings
+	// OvertakenBy: id of a shape that is signed (whole pipeline) in the same
+	// process after this case's signer has returned its result and before that
+	// result is applied
+	OvertakenBy string `json:"overtaken_by,omitempty"`
 }
 
 type finding struct {
@@ -128,6 +132,10 @@ func (e *env) fresh(ext string) (string, string) {
 }
 
 func signOnce(sh *shape, key string, in, out string) (err error) {
+	return signOnceThen(sh, key, in, out, nil)
+}
+
+func signOnceThen(sh *shape, key string, in, out string, afterSign func()) (err error) {
 	defer func() {
 		if r := recover(); r != nil {
 			err = &relicx.PanicError{Value: r}
@@ -145,10 +153,11 @@ func signOnce(sh *shape, key string, in, out string) (err error) {
 	if h == 0 {
 		h = crypto.SHA256
 	}
-	return relicx.SignStandalone(cfg, tok, relicx.SignReq{SigType: sh.Type, Key: key, Hash: h, Flags: flags, In: in, Out: out})
+	return relicx.SignStandalone(cfg, tok, relicx.SignReq{SigType: sh.Type, Key: key, Hash: h, Flags: flags, In: in, Out: out, AfterSign: afterSign})
 }
 
 var cfg = relicx.BaseConfig("file")
+var shapeByID map[string]*shape
 
 func readPayload(sh *shape, path string, e *env) (*payload.Payload, error) {
 	return payload.Read(sh.PType, path, e.py)
@@ -225,13 +234,28 @@ func runCase(e *env, sh *shape, cs caseSpec) {
 	if cs.OutMode == "new" {
 		out = filepath.Join(dir, "output"+sh.Ext)
 	}
-	serr := signOnce(sh, cs.Key, in, out)
+	var afterSign func()
+	if cs.OvertakenBy != "" {
+		o := shapeByID[cs.OvertakenBy]
+		hz = sh.Type + ":overtaken"
+		afterSign = func() {
+			odir, oin := e.fresh(o.Ext)
+			defer os.RemoveAll(odir)
+			if err := os.WriteFile(oin, o.Build(), 0o644); err != nil {
+				panic(err)
+			}
+			if err := signOnce(o, "rsaA", oin, oin); err != nil {
+				outcome("overtaking-signing-refused:" + o.Type)
+			}
+		}
+	}
+	serr := signOnceThen(sh, cs.Key, in, out, afterSign)
 	after, _ := os.ReadFile(in)
 	if serr != nil && bytes.Equal(after, input) {
 		// a refusal must be a function of the input: try again on the same (untouched) input
 		if _, err := os.Stat(out); cs.OutMode == "new" && err == nil {
 			// keep the first observation (output written despite error), judged below
-		} else if err2 := signOnce(sh, cs.Key, in, out); err2 == nil {
+		} else if err2 := signOnceThen(sh, cs.Key, in, out, afterSign); err2 == nil {
 			outcome("nondeterministic-refusal(first attempt failed, identical retry succeeded):" + sh.Type + ":" + errClass(serr))
 			serr = nil
 			after, _ = os.ReadFile(in)
@@ -256,7 +280,7 @@ func runCase(e *env, sh *shape, cs caseSpec) {
 		}
 		return
 	}
-	distinct(sh.ID + "|" + cs.Key + "|" + cs.OutMode + fmt.Sprint(cs.Rounds))
+	distinct(sh.ID + "|" + cs.Key + "|" + cs.OutMode + fmt.Sprint(cs.Rounds) + "|" + cs.OvertakenBy)
 	if cs.OutMode == "new" && !bytes.Equal(after, input) {
 		report(hz, "input-modified-with-separate-output", fmt.Sprintf("%s key=%s: output went to a new path but the input file changed", sh.ID, cs.Key), replay, weight)
 	}
@@ -338,7 +362,7 @@ func failuresOf(e *env, sh *shape, cs caseSpec) map[string]bool {
 	}
 	var got []capture
 	captured, probing = &got, true
-	runCase(e, sh, caseSpec{sh.ID, cs.Key, cs.OutMode, 0})
+	runCase(e, sh, caseSpec{Shape: sh.ID, Key: cs.Key, OutMode: cs.OutMode})
 	captured, probing = nil, false
 	m := map[string]bool{}
 	for _, c := range got {
@@ -424,6 +448,7 @@ func main() {
 	for i := range all {
 		byID[all[i].ID] = &all[i]
 	}
+	shapeByID = byID
 	for i := range all {
 		sh := &all[i]
 		if only != "" && !strings.Contains(sh.ID, only) {
@@ -456,15 +481,38 @@ func main() {
 						continue
 					}
 					for rep := 1; rep < repeat; rep++ { // development: C03_REPEAT
-						runCase(e, sh, caseSpec{sh.ID, key, om, r})
+						runCase(e, sh, caseSpec{Shape: sh.ID, Key: key, OutMode: om, Rounds: r})
 					}
 					if len(sh.Parts) > 0 {
-						runMinimised(e, sh, caseSpec{sh.ID, key, om, r}, byID)
+						runMinimised(e, sh, caseSpec{Shape: sh.ID, Key: key, OutMode: om, Rounds: r}, byID)
 					} else {
-						runCase(e, sh, caseSpec{sh.ID, key, om, r})
+						runCase(e, sh, caseSpec{Shape: sh.ID, Key: key, OutMode: om, Rounds: r})
 					}
 				}
 			}
+		}
+	}
+	// overtaken: the first (plain) shape of every type x the first shape of every
+	// type signed in between
+	var firsts []*shape
+	seenType := map[string]bool{}
+	for i := range all {
+		if sh := &all[i]; !seenType[sh.Type+sh.PType] && len(sh.Parts) == 0 && (only == "" || strings.Contains(sh.ID, only)) {
+			seenType[sh.Type+sh.PType] = true
+			firsts = append(firsts, sh)
+		}
+	}
+	for _, sh := range firsts {
+		for _, o := range firsts {
+			idx++
+			if idx%sn != si {
+				continue
+			}
+			om := "same"
+			if sh.NoSamePath {
+				om = "new"
+			}
+			runCase(e, sh, caseSpec{Shape: sh.ID, Key: "rsaA", OutMode: om, OvertakenBy: o.ID})
 		}
 	}
 	if si == 0 {
